@@ -87,6 +87,17 @@ def run(tier, seed):
             b.knew("o2", spec3, rng.choice(STORES), rng.choice(STORES), exact); b.kadd("o2", 1.5); b.kadd("o2", -2.5)
             j0 = b.emit("kobs k"); j1 = b.emit("kobs o2"); b.emit("kmerge k o2", "err mapping-mismatch"); b.emit("kobs k", ("same", j0)); b.emit("kobs o2", ("same", j1))
             j1 = b.emit("kobs o2"); b.emit("kmerge o2 k", "err mapping-mismatch"); b.emit("kobs o2", ("same", j1))
+        # NewDDSketchWithExactSummaryStatisticsFromData refuses a sketch and statistics that disagree about emptiness, and accepts the others
+        if rng.random() < 0.5:
+            b.knew("pd", spec, rng.choice(STORES), rng.choice(STORES)); filled = rng.random() < 0.6
+            if filled: b.kadd("pd", 2.0, 4.0)
+            cnt = rng.choice([0.0, 4.0])
+            b.emit("tnew td %s %s %s %s" % ((f2h(4.0), f2h(8.0), f2h(2.0), f2h(2.0)) if cnt else (f2h(0.0), f2h(0.0), f2h(INF), f2h(-INF))), "ok")
+            jd = b.emit("kobs pd")
+            if filled == (cnt > 0):
+                b.emit("kfromdata xd pd td", "ok"); b.emit("kstats xd", "count=%s sum=x%s min=%s max=%s" % (("1@2", f2h(8.0), "1@1", "1@1") if cnt else ("0", f2h(0.0), "-", "-")))
+            else:
+                b.emit("kfromdata xd pd td", "err other"); b.emit("kobs pd", ("same", jd))
         # empty sketch
         b.kclear("k")
         for q in (0.0, 0.5, 1.0): b.emit("q k %s" % f2h(q), "err empty")
